@@ -184,6 +184,69 @@ let err_text = function
   | UB_free_singleton -> "UB_free_singleton" | UB_bad_layout -> "UB_bad_layout" | OutOfFuel -> "OutOfFuel"
   | Panic -> "Panic" | PanicCapacityOverflow -> "PanicCapacityOverflow" | AbortAlloc -> "AbortAlloc" | PanicOther -> "PanicOther"
 
+
+(* ---------- arithmetic mode: compare the hook wrappers' answers with Gen.* ---------- *)
+let arith_mode (file : string) =
+  let ic = open_in file in
+  let gw = ref 16 in
+  let total = ref 0 and bad = ref 0 in
+  let kinds : (string, int) Hashtbl.t = Hashtbl.create 17 in
+  (try while true do
+    let l = input_line ic in
+    (match words l with
+     | ["gw"; g] -> gw := int_of_string g
+     | ws when List.mem "=" ws ->
+       let rec split acc = function "=" :: r -> (List.rev acc, r) | x :: r -> split (x :: acc) r | [] -> (List.rev acc, []) in
+       let (q, r) = split [] ws in
+       let impl = String.concat " " r in
+       let b = if !gw = 16 then sse2_backend else generic_backend in
+       let z i = zs (List.nth q i) in
+       let model =
+         (match List.hd q with
+          | "ctb" -> (match capacity_to_buckets (zi !gw) (z 1) (z 2) (z 3) with Some x -> string_of_z x | None -> "none")
+          | "bmtc" -> string_of_z (bucket_mask_to_capacity (z 1))
+          | "layout" -> (match calculate_layout_for (zi !gw) (z 1) (z 2) (z 3) with
+              | Some ((l, a), o) -> Printf.sprintf "%s %s %s" (string_of_z l) (string_of_z a) (string_of_z o)
+              | None -> "none")
+          | "probe" ->
+            let mask = z 2 in
+            let p0 = fst (probe_seq mask (z 1)) in
+            String.concat "," (List.map string_of_z (probe_positions (zi !gw) mask (nat_of_int (int_of_string (List.nth q 3))) p0))
+          | "samegroup" -> if is_in_same_group (zi !gw) (z 4) (z 1) (z 2) (z 3) then "1" else "0"
+          | "h1" -> string_of_z (h1 (z 1))
+          | "tagfull" -> string_of_z (tag_full (z 1))
+          | "tagclass" ->
+            let x = z 1 in
+            Printf.sprintf "%d %d %d" (if tag_is_full x then 1 else 0) (if tag_is_special x then 1 else 0)
+              (if tag_is_special x && tag_special_is_empty x then 1 else 0)
+          | "grp" ->
+            let g = unhex (List.nth q 2) in
+            let g = List.filteri (fun i _ -> i < !gw) g in
+            let il l = if l = [] then "-" else String.concat "," (List.map (fun n -> string_of_int (int_of_nat n)) l) in
+            let view (word : z) (iter : nat list) =
+              (* any / lowest / lz / tz are computed from the same BitMask word by the Gen.bm_* functions *)
+              Printf.sprintf "iter=%s any=%d low=%s lz=%d tz=%d" (il iter)
+                (if bm_any_bit_set word then 1 else 0)
+                (match bm_lowest_set_bit b.bk_bits b.bk_stride word with Some x -> string_of_z x | None -> "-")
+                (int_of_nat (Z.to_nat (bm_leading_zeros b.bk_bits b.bk_stride word)))
+                (int_of_nat (Z.to_nat (bm_trailing_zeros b.bk_bits b.bk_stride word))) in
+            (match List.nth q 1 with
+             | "match_tag" -> let t = z 3 in view (b.bk_match_tag g t) (g_match_tag b g t)
+             | "match_empty" -> view (b.bk_match_empty g) (bm_iter b (b.bk_match_empty g))
+             | "match_eod" -> view (b.bk_match_eod g) (bm_iter b (b.bk_match_eod g))
+             | "match_full" -> view (b.bk_match_full g) (g_match_full b g)
+             | "convert" -> hex_of (g_convert b g)
+             | _ -> "?")
+          | _ -> "?") in
+       incr total;
+       Hashtbl.replace kinds (List.hd q) (1 + (try Hashtbl.find kinds (List.hd q) with Not_found -> 0));
+       if model <> impl then begin incr bad; Printf.printf "T-MISMATCH %s: model [%s] impl [%s]\n" (String.concat " " q) model impl end
+     | _ -> ())
+  done with End_of_file -> ());
+  close_in ic;
+  Printf.printf "STATS queries=%d mismatches=%d\n" !total !bad;
+  Printf.printf "OPS %s\n" (String.concat " " (Hashtbl.fold (fun k v acc -> Printf.sprintf "%s=%d" k v :: acc) kinds []))
+
 (* ---------- the checking loop ---------- *)
 type cfg = { mutable backend : backend; mutable gw : int; mutable tsize : z; mutable talign : z;
              mutable needs_drop : bool; mutable hashes : (string * z) list; mutable rule : string;
@@ -195,6 +258,7 @@ let say fmt = Printf.ksprintf (fun s -> incr findings; print_endline s) fmt
 let sorted_kvs (l : kv list) = List.sort compare (List.map kv_text l)
 
 let () =
+  if Sys.argv.(1) = "arith" then (arith_mode Sys.argv.(2); exit 0);
   let file = Sys.argv.(1) in
   let levels = if Array.length Sys.argv > 2 then Sys.argv.(2) else "ABC" in
   let do_a = String.contains levels 'A' and do_b = String.contains levels 'B' and do_c = String.contains levels 'C' in
